@@ -27,7 +27,7 @@ RULE = ("three feature-covering seed documents (embedded TrueType / Type 1 / CFF
         "element removed, each stream payload halved / emptied / randomised / extended; truncation of the file at 60 "
         "points; run through extract_text, extract_pages and extract_text_to_fp(xml) under a call budget proportional to "
         "the seed's own cost and a wall-clock alarm; outcome classes: returns / library exception family "
-        "(PSException, AssertionError) / leak (type and innermost pdfminer frame) / RecursionError / budget exceeded. "
+        "(PSException and its subclasses, i.e. every PDF* error) / leak (type and innermost pdfminer frame) / RecursionError / budget exceeded. "
         "Guards compared with Model/Guards.v on reference chains of length 95..105 and cycles, on random form graphs, and on "
         "files whose /Prev and /XRefStm entries are redirected to arbitrary sections (cycles, self-links; read order "
         "observed by wrapping read_xref_from). "
@@ -283,7 +283,7 @@ def run_budgeted(fn, pdf, budget, seconds=20):
         out = ("budget", "more than %d calls" % budget)
     except Alarm:
         out = ("timeout", "%ds" % seconds)
-    except (AssertionError, PSException) as e:
+    except PSException as e:
         out = ("family", type(e).__name__)
     except ImportError as e:
         # image export of some formats needs the optional Pillow package, which this sandbox does not have: the library
@@ -495,7 +495,7 @@ def crypt_cases(ctx, limit):
             if cls in ("ok", "family"):
                 continue
             fam = {"leak": "leak", "budget": "work", "timeout": "work", "recursion": "recursion", "memory": "work"}[cls]
-            ctx.violation(fam, dict(inp, site=det, pdf=pdf.hex()), "returns or raises PSException/AssertionError", "%s %s" % (cls, det or ""),
+            ctx.violation(fam, dict(inp, site=det, pdf=pdf.hex()), "returns or raises PSException", "%s %s" % (cls, det or ""),
                           "a damaged encryption dictionary: " + {"leak": "an internal error escaped the library's exception family"}.get(cls, cls))
     logging.disable(logging.NOTSET)
 
@@ -514,7 +514,7 @@ def one(ctx, eps, base, sname, inp, pdf):
                 "budget": "work is not bounded in proportion to the undamaged document",
                 "timeout": "extraction hangs", "recursion": "the interpreter's recursion limit was exhausted",
                 "memory": "memory exhausted"}[cls]
-        ctx.violation(fam, dict(inp, entry=ename, site=det, pdf=pdf.hex()), "returns or raises PSException/AssertionError", "%s %s" % (cls, det or ""), what)
+        ctx.violation(fam, dict(inp, entry=ename, site=det, pdf=pdf.hex()), "returns or raises PSException", "%s %s" % (cls, det or ""), what)
 
 
 # ------------------------------------------------------------------ guards against the model
